@@ -415,7 +415,9 @@ def run_tests(options, tests, name, failures, errors, skipped, import_errors):
         output.stop_tests()
         failures.extend(result.failures)
         n_failures = len(result.failures)
-        failures.extend(result.unexpectedSuccesses)
+        # unittest records unexpected successes as bare tests; the failure
+        # lists consist of (test, exc_info) pairs
+        failures.extend((test, None) for test in result.unexpectedSuccesses)
         n_failures += len(result.unexpectedSuccesses)
         skipped.extend(result.skipped)
         errors.extend(result.errors)
